@@ -67,7 +67,63 @@ def array_models():
         if not isinstance(rows, list):
             raise Unmodelled('iteration over an Array without rows')
         return list(range(len(rows[0]) if rows else 0))
-    return {XLT + 'Array': make, XLT + 'Array.__getitem__': getitem, XLT + 'Array.__iter__': iterate}
+    def set_index(interp, self_, column, *a, **k):
+        rows = self_.f.get('rows')
+        if a or k or column != 0 or not isinstance(rows, list):
+            raise Unmodelled('DataFrame.set_index other than set_index(0) on a range array')
+        return _Indexed(interp, rows)
+    set_index.wants_interp = True
+    return {XLT + 'Array': make, XLT + 'Array.__getitem__': getitem, XLT + 'Array.__iter__': iterate, XLT + 'Array.set_index': set_index}
+
+
+class _Index(PyModel):
+    """pandas Index over the first column: membership by hash and equality when the keys are unique (a hash table), by == against
+    every key when they are not (pandas then builds a boolean mask)."""
+
+    def __init__(self, interp, keys):
+        self.interp, self.keys = interp, keys
+
+    def _key(self, v):
+        from xlsa.guards import _RecKey
+        return _RecKey(self.interp, v) if isinstance(v, Rec) else v
+
+    def positions(self, key):
+        ks = [self._key(k) for k in self.keys]
+        unique = len(set(ks)) == len(ks)
+        if unique:
+            kk = self._key(key)
+            return [i for i, k in enumerate(ks) if hash(k) == hash(kk) and k == kk]
+        import ast as _ast
+        return [i for i, k in enumerate(self.keys) if self.interp.truth(self.interp._compare(_ast.Eq(), k, key, None))]
+
+    def __contains__(self, key):
+        return bool(self.positions(key))
+
+
+class _Loc(PyModel):
+    def __init__(self, frame):
+        self.frame = frame
+
+    def __getitem__(self, key):
+        pos = self.frame.index.positions(key)
+        if not pos:
+            raise ExcRaised(Ref('builtin:KeyError'))
+        rest = [self.frame.rows[i][1:] for i in pos]
+        return _Values([rest[0]]).rows[0] and _RowValues(rest[0]) if len(pos) == 1 else _RowValues(rest)      # one row: a Series; several: a frame of rows
+
+
+class _RowValues(PyModel):
+    """.values of what .loc returned: the items of the row, or - for several rows - the rows."""
+
+    def __init__(self, values):
+        self.values = list(values)
+
+
+class _Indexed(PyModel):
+    def __init__(self, interp, rows):
+        self.interp, self.rows = interp, rows
+        self.index = _Index(interp, [r[0] for r in rows])
+        self.loc = _Loc(self)
 
 
 class _Series(PyModel):
